@@ -36,7 +36,7 @@ QSETS = {
     "obj3": "obj3",
 }
 RSTAR = {"I": "cube0", "z90": "cube5", "gen0": "gen0", "gen1": "gen1", "gen3": "gen3", "cube14": "cube14", "cube20": "cube20"}
-KINDS = ["single", "batch", "group", "multi", "stack", "notemplate"]
+KINDS = ["single", "batch", "group", "multi", "stack", "notemplate", "group-multi"]
 TOMO = (30, 30, 30)
 DECOY = [(1.0, (0.0, 0.0, 0.0), 1.6), (0.7, (2.0, 2.0, 0.0), 1.2)]
 
@@ -169,6 +169,9 @@ def run_case(case):
     elif kind == "multi":
         decoy = data.particle_box(box, blobs=DECOY)
         outs = [loader.align_multi_templates([template, decoy], max_shifts=ms_nm, alignment_model=cls, **kw).molecules]
+    elif kind == "group-multi":
+        decoy = data.particle_box(box, blobs=DECOY)
+        outs = [l.molecules for _, l in loader.groupby("g").align_multi_templates([template, decoy], max_shifts=ms_nm, alignment_model=cls, **kw)]
     elif kind == "stack":
         decoy = data.particle_box(box, blobs=DECOY)
         outs = [loader.align(np.stack([decoy, template]), max_shifts=ms_nm, alignment_model=cls, **kw).molecules]
@@ -217,9 +220,9 @@ def run_case(case):
             sc = float(f["score"][r])
             if not np.isfinite(sc) or (mname == "ZNCC" and not notemplate and kind != "stack" and sc < 0.8):
                 viol.append((sig("score", cl), f"molecule uid {u}: score {sc}"))
-            if kind in ("multi", "stack"):
+            if kind in ("multi", "stack", "group-multi"):
                 lab = int(f["labels"][r])
-                want = 0 if kind == "multi" else 1
+                want = 1 if kind == "stack" else 0
                 if lab != want:
                     viol.append((sig("label", cl), f"molecule uid {u}: label {lab}, the particle is template {want}"))
     if notemplate and finals:
